@@ -292,10 +292,12 @@ PROPERTY = {
     "explanation": "Bounded exhaustive, executed from the AST of the real functions with an exact oracle: for every occupation vector / every admissible "
                    "(n_electrons, spin) up to the bound, every encoding and ordering, the diagonal matrix element of the encoded number operator on the prepared "
                    "basis state is compared exactly (dyadic rationals) with the requested occupation. The only inputs are integers / bit vectors, so each size is "
-                   "decided completely; there is no symbolic scalar, and sizes beyond the bound are NOT proved (the BK / JKMN tree recursions need an induction "
-                   "over the register size that is out of reach here).",
+                   "decided completely; for BK / scBK / JKMN sizes beyond the bound are NOT proved (the tree recursions need an induction over the register size that is "
+                   "out of reach here). Unbounded for Jordan-Wigner: the reference vector for EVERY register size, electron number, spin and position (P1: symbolic "
+                   "integers; the numpy array of symbolic length modelled with Python's slice semantics) and vector_to_circuit for occupation vectors of ANY length and "
+                   "content (P2, loop cut); with JW's number operator (1 - Z_p)/2 these give the requested occupations for every size.",
     "bounds": {"quick": "n_spinorbitals <= 8 for get_vector; all 2^n occupation vectors for n <= 6; all (n_e, spin) for n <= 6", "thorough": "n <= 12 / 10 / 8"},
     "assumptions": ["openfermion's jordan_wigner / bravyi_kitaev / bravyi_kitaev_code executed natively (assumed)", "register size bounded as stated"],
     "trusted_base": ["tverif AST interpreter", "openfermion", "numpy"],
-    "technique": "contract checking by exhaustive enumeration of the finite input domain up to a stated bound, executing the real AST (bounded; no unbounded proof)",
+    "technique": "contract-based deductive verification for Jordan-Wigner (symbolic register size / electron number / spin, z3); contract checking by exhaustive enumeration of the finite input domain up to a stated bound, executing the real AST (bounded; no unbounded proof)",
 }
